@@ -142,6 +142,8 @@ theorem env_codeset (lang cs md : List Char) (b c : Option String) (h1 : '.' ∉
 example : getCharset ⟨some "de_DE.ISO8859-15@euro", some "C", some "ja_JP.EUC-JP"⟩ = "ISO8859-15" := by decide
 example : getCharset ⟨some "", some "ru_RU.KOI8-R", some "C"⟩ = "KOI8-R" := by decide
 example : getCharset ⟨none, some "", some "zh_CN.GBK"⟩ = "GBK" := by decide
+example : getCharset ⟨some "C.UTF-8", none, none⟩ = "UTF-8" := by decide   -- only the bare C / POSIX names mean US-ASCII
+example : getCharset ⟨none, none, some "POSIX.ISO8859-1"⟩ = "ISO8859-1" := by decide
 example : getCharset ⟨some "en_US", none, none⟩ = "UTF-8" := by decide
 example : getCharset ⟨some "x@y.z", none, none⟩ = "UTF-8" := by decide     -- the '.' behind the '@' is part of the modifier
 example : getCharset ⟨some "a.b.c", none, none⟩ = "b.c" := by decide       -- the FIRST '.' separates the codeset
